@@ -49,7 +49,7 @@ func init() {
 		LevelText: "Exploration under the race detector: each generated diagram is rendered by dagre or ELK, with sketch mode on or off, twice sequentially, then from 4–8 goroutines at once together with other diagrams at GOMAXPROCS ∈ {1,2,4,16}, and by two fresh d2 CLI processes; all SVG outputs of the same (input, options) must be byte-identical and the race detector must stay silent on d2 frames.",
 		Technique: "runtime monitoring: byte-equality oracle across sequential / concurrent / cross-process renders + Go race detector",
 		DesignRef: "§4 C25",
-		Rule:      "cases: gen.Diagram × {dagre ×8/10, elk ×2/10} × sketch on (3/10) / off × GOMAXPROCS ∈ {1,2,4,16}; distinct by sha256(case); non-trivial when the input has ≥2 shapes, ≥2 sequential and ≥2 concurrent renders of it succeeded and were compared while ≥2 other renders were in flight",
+		Rule:      "cases: gen.Diagram × {dagre ×9/10, elk ×1/10} × sketch on (≈3/10) / off × GOMAXPROCS ∈ {1,2,4,16}; distinct by sha256(case); non-trivial when the input has ≥2 shapes, ≥2 sequential and ≥2 concurrent renders of it succeeded and were compared while ≥2 other renders were in flight",
 		Race:      true,
 		// The first (sequential) render of a case is run under recover and a panic there is
 		// skipped (totality of layout/render belongs to C17). Once that render has succeeded, a
@@ -87,16 +87,15 @@ func genC25(seed int64, tier string, emit func(run.Case)) {
 	procs := []int{1, 2, 4, 16}
 	for i := 0; i < n; i++ {
 		q := r.Sub(i)
-		// per 10 cases: 6 dagre plain, 2 dagre sketch, 1 elk plain, 1 elk sketch (a render under
-		// -race costs ≈1 s dagre, ≈3 s dagre+sketch, ≈5–8 s elk: this mix keeps quick ≲60 s)
+		// per 10 cases: 6 dagre plain, 3 dagre sketch, 1 elk (sketch on every other one). A render
+		// under -race costs ≈1 s dagre, ≈3 s dagre+sketch, ≈5–8 s elk on an idle machine: this mix
+		// keeps quick ≲60 s there.
 		eng, sketch := "dagre", false
 		switch i % 10 {
-		case 3, 7:
+		case 3, 6, 8:
 			sketch = true
-		case 8:
-			eng = "elk"
 		case 9:
-			eng, sketch = "elk", true
+			eng, sketch = "elk", (i/10)%2 == 1
 		}
 		o := c25Opts()
 		o.Engine = eng
@@ -301,7 +300,11 @@ func execC25(c run.Case) (res run.Result) {
 		go func(i int) {
 			defer wg.Done()
 			<-start
-			outs[i], _, errs[i] = c25Render(jobs[i].text, in.Engine, jobs[i].sketch)
+			eng := in.Engine
+			if !jobs[i].self {
+				eng = "dagre" // bystanders of an ELK case run dagre: both engines in flight at once
+			}
+			outs[i], _, errs[i] = c25Render(jobs[i].text, eng, jobs[i].sketch)
 		}(i)
 	}
 	close(start)
@@ -332,7 +335,7 @@ func execC25(c run.Case) (res run.Result) {
 		if r0, ok := otherRef[j.other]; !ok {
 			otherRef[j.other] = outs[i]
 		} else if !bytes.Equal(r0, outs[i]) {
-			viol("C25.svg-differs", "C25.svg-differs:concurrent-bystander:"+in.Engine+":"+c25DiffClass(r0, outs[i]),
+			viol("C25.svg-differs", "C25.svg-differs:concurrent-bystander:dagre:"+c25DiffClass(r0, outs[i]),
 				fmt.Sprintf("two concurrent renders of the same bystander diagram differ (GOMAXPROCS %d): %s\n%s", in.Procs, c25Context(r0, outs[i]), jobs[i].text))
 		}
 	}
